@@ -15,6 +15,7 @@ import (
 // generated, so later choices (crash points, keys that collide under the seed in effect) can depend
 // on what was observed. The finished command list is then replayed on the Coq model.
 type G struct {
+	everPut map[string]map[string]bool // every value ever put, per key
 	r         *rng
 	im        *interp.Impl
 	c         *Case
@@ -94,9 +95,37 @@ func hexArg(b []byte) string {
 }
 
 func (g *G) put(k, v []byte) {
+	if g.everPut == nil {
+		g.everPut = map[string]map[string]bool{}
+	}
+	if g.everPut[string(k)] == nil {
+		g.everPut[string(k)] = map[string]bool{}
+	}
+	g.everPut[string(k)][string(v)] = true
 	g.do("put "+hexArg(k)+" "+hexArg(v), "put ok")
 	g.ref[string(k)] = append([]byte{}, v...)
 	g.afterMut()
+}
+
+// drainIter calls Next on a scan that is already in progress until it is done: every pair returned
+// must be a key with a value that was put for that key at some time (the scan may have started
+// before later writes, deletes and compactions).
+func (g *G) drainIter(name string) {
+	for n := 0; n < 5000; n++ {
+		out := resultLine(g.do("iternext " + name))
+		if out == "iternext done" {
+			return
+		}
+		f := strings.Fields(out)
+		ok := len(f) == 3 && f[0] == "iternext" && isHexField(f[1]) && isHexField(f[2])
+		if ok {
+			ok = g.everPut[string(interp.Unhex(f[1]))][string(interp.Unhex(f[2]))]
+		}
+		if !ok {
+			g.c.Steps[len(g.c.Steps)-1].Expect = []string{"iternext <key> <a value that was put for that key>"}
+			return
+		}
+	}
 }
 
 func (g *G) del(k []byte) {
